@@ -35,7 +35,7 @@ pub fn prop() -> Prop {
          fragments inlined. Non-trivial: some named fragment is spread at least twice in the expanded operation; \
          distinct by operation text.",
     )
-    .random("ops", check, |t| if t == Tier::Quick { 500_000 } else { 6_000_000 }, |t| if t == Tier::Quick { 160 } else { 260 })
+    .random("ops", check, |t| if t == Tier::Quick { 1_200_000 } else { 6_000_000 }, |t| if t == Tier::Quick { 160 } else { 260 })
     .text(check_text)
     .assumptions(&[
         "the threshold (reject at three nested list fields) and the four counted fields are taken from the property statement and the repository's max-depth tests, not from the algorithm",
